@@ -74,6 +74,8 @@ type rbDecl struct {
 	writes int
 	depth  int // function nesting depth of the declaration
 	attr   int
+	funcValue bool // initialised with a function value
+	dupInStat bool // the same local statement declares this name more than once
 }
 
 type rbOcc struct {
@@ -215,6 +217,16 @@ func (r *rbT) stat(s ast.Stat) {
 			id := r.declare(n, st.VarLocList[i], rbLocal)
 			if i < len(st.AttrList) {
 				r.decls[id].attr = int(st.AttrList[i])
+			}
+			if i < len(st.ExpList) {
+				if _, isF := st.ExpList[i].(*ast.FuncDefExp); isF {
+					r.decls[id].funcValue = true
+				}
+			}
+			for k, m := range st.NameList {
+				if k != i && m == n {
+					r.decls[id].dupInStat = true
+				}
 			}
 		}
 	case *ast.LocalFuncDefStat:
